@@ -184,6 +184,14 @@ def check_qasm(ctx: Ctx):
         skip = [s for s in loop.body if isinstance(s, ast.If) and "NopGate" in norm(s.test) and any(isinstance(x, ast.Continue) for x in s.body)]
         others = [s for s in loop.body if isinstance(s, ast.If) and s not in skip and any(isinstance(x, ast.Continue) for x in ast.walk(s))]
         ctx.check(len(skip) == 1 and not others, "DP-CLOSED", fi, "only no-op gates are skipped", "", "gates other than barriers/no-ops are skipped in the QASM body", loop)
+    # the naming function is a function of the name->index map alone
+    gk = repo.func("qcircuit.qcircuit.QCircuit.get_key_by_index")
+    reads = sorted({n.attr for n in ast.walk(gk.node) if isinstance(n, ast.Attribute) and isinstance(n.value, ast.Name) and n.value.id == "self"})
+    if reads != ["qubit_map"]:
+        raise AnchorError(gk.short, f"get_key_by_index now reads {reads}: names are no longer derived from qubit_map alone, and the analysis cannot decide that a secondary index stays consistent with every write to qubit_map (re-pointing a name, deleting, promoting)")
+    txt = norm(gk.node).replace(" ", "")
+    ctx.check("forkeyinreversed(self.qubit_map.keys())" in txt and "ifself.qubit_map[key]==i:" in txt and "returnkey" in txt, "MP-formals-provenance", gk, "the name of qubit i is the latest key mapped to i", "", "get_key_by_index no longer returns the most recently mapped name of the index", gk.node)
+    ctx.check(isinstance(gk.body[-1], ast.Raise), "MP-formals-provenance", gk, "unnamed indices raise", "", "", gk.node)
     # version switch
     ex = repo.func("qcircuit.exporter_qasm.QasmExporter.export")
     txt = norm(ex.node)
